@@ -74,12 +74,13 @@ type simCtx struct {
 	flipSite                 pollSite
 	seenAt                   time.Time
 	callsNow                 func() int // file leg: number of file-system events so far (instead of rs.calls)
+	reader                   uint64     // goroutine of the read: polls by helper goroutines (context.AfterFunc, propagateCancel) are not the reader's polls
 	afterCancel              func()     // file leg: lets goroutines that react to the cancellation run before the reader goes on
 	reason                   error      // what Err() reports once the context has ended: Canceled, or DeadlineExceeded (its simulated deadline passes at the flip)
 }
 
 func newSimCtx() *simCtx {
-	return &simCtx{done: make(chan struct{}), siteCount: map[string]int{}, reason: context.Canceled}
+	return &simCtx{done: make(chan struct{}), siteCount: map[string]int{}, reason: context.Canceled, reader: runtime.VerifGoid()}
 }
 
 func (c *simCtx) Deadline() (time.Time, bool) {
@@ -101,6 +102,9 @@ func (c *simCtx) cancel() {
 }
 
 func (c *simCtx) poll() {
+	if runtime.VerifGoid() != c.reader {
+		return
+	}
 	c.polls++
 	_, file, line, _ := runtime.Caller(2)
 	site := fmt.Sprintf("%s:%d", trimRepo(file), line)
@@ -877,6 +881,29 @@ func (c10) Replay(payload json.RawMessage) ([]core.Violation, error) {
 			return []core.Violation{preViolation(rp.Doc, rp.Mode, ctx, err, rs.calls, rp)}, nil
 		}
 		return nil, nil
+	case "io-cause":
+		cctx, cancel := context.WithCancelCause(context.Background())
+		defer cancel(nil)
+		runtime.VerifSetMapRand(mapSalt ^ 0xC10C10C10)
+		simclock.Install(mapSalt)
+		defer simclock.Uninstall()
+		rs := &countRS{r: bytes.NewReader(b), ctx: newSimCtx(), flipAtRead: rp.N, seekOcc: map[int64]int{}}
+		rs.realCancel = func() { cancel(errors.New("verif: custom cancellation cause")) }
+		ctx, err := pdfcpu.ReadWithContext(cctx, rs, conf())
+		fmt.Printf("io-cause replay: cancelled inside Read %d: err=%v doc=%v, %d calls afterwards\n", rp.N, err, ctx != nil, rs.calls-rs.callsAtReal)
+		var vs []core.Violation
+		switch {
+		case err != nil && ctx != nil:
+			vs = append(vs, core.Violation{Property: "C10", Class: "document-and-error", Detail: fmt.Sprint(err)})
+		case err != nil && !errors.Is(err, context.Canceled):
+			vs = append(vs, core.Violation{Property: "C10", Class: "wrong-error", Detail: fmt.Sprintf("err=%v does not match the context's error", err)})
+		case err == nil && ctx == nil:
+			vs = append(vs, core.Violation{Property: "C10", Class: "nil-nil"})
+		}
+		if rs.callsAtReal > 0 && rs.calls-rs.callsAtReal > B+1 {
+			vs = append(vs, core.Violation{Property: "C10", Class: "not-prompt", Detail: fmt.Sprintf("%d calls after the cancellation", rs.calls-rs.callsAtReal)})
+		}
+		return vs, nil
 	case "file":
 		fullF, _, _, err := doReadFile(b, 0, "")
 		if err != nil {
